@@ -4,6 +4,7 @@ import (
 	"context"
 	"errors"
 	"fmt"
+	"strings"
 	"testing"
 	"time"
 
@@ -647,6 +648,14 @@ func noGeneratedIDs(v interface{}) bson.D {
 			if id := getD(x, "id"); id != nil && asS(getD(x, "op")) == "updateByID" {
 				if _, isOID := id.(primitive.ObjectID); !isOID {
 					pinned = true
+				}
+			}
+			// ... unless the update or replacement itself touches _id
+			if pinned {
+				for _, k := range []string{"update", "repl"} {
+					if d := asD(getD(x, k)); d != nil && strings.Contains(show(d), "_id") {
+						pinned = false
+					}
 				}
 			}
 			for i, e := range x {
